@@ -203,5 +203,80 @@ class RQH(Harness):
         return RQExec(cfg)
 
 
-HARNESSES = {'iq': IQH, 'responsive': RQH}
-PLAN = {'quick': ['iq', 'responsive'], 'thorough': ['iq', 'responsive']}
+class RQ2Exec(Exec):
+    """two consumers blocked in get() on a ResponsiveQueue that receives ONE item; then the stop event is set:
+    one gets the item, the other must raise StopRequested within the wait interval"""
+
+    def __init__(self, cfg):
+        self.cfg = cfg
+
+    def body(self):
+        import time
+        from mpservice._common import StopRequested
+        from mpservice.queue import ResponsiveQueue
+        cfg = self.cfg
+        s = sched.S()
+        ev = threading.Event()
+        wi = cfg['wi']
+        q = ResponsiveQueue(queue.Queue(2), ev, wait_interval_seconds=wi)
+        res = {}
+
+        def getter(k):
+            try:
+                res[k] = ('value', q.get(), s.now)
+            except StopRequested:
+                res[k] = ('StopRequested', None, s.now)
+
+        ts = [threading.Thread(target=getter, args=(k,), name=f'getter{chr(97 + k)}') for k in range(2)]
+        grid = [0.0, wi / 2, wi * 1.5]
+        t_item = grid[s.choose(len(grid), 'item-at')]
+        if cfg['item_first']:
+            q.put('item')
+        for t in ts:
+            t.start()
+        if t_item > 0:
+            time.sleep(t_item)
+        if not cfg['item_first']:
+            q.put('item')
+        time.sleep(wi / 2)
+        ev.set()
+        t_set = s.now
+        for t in ts:
+            t.join()
+        return res, t_set
+
+    def verdict(self, r):
+        v = default_verdict(r)
+        if v:
+            return v
+        res, t_set = r.value
+        kinds = sorted(x[0] for x in res.values())
+        if kinds != ['StopRequested', 'value']:
+            return ('wrong-outcomes:' + ','.join(kinds), f'{res}')
+        for k, (kind, _, t) in res.items():
+            if kind == 'StopRequested' and t > t_set + self.cfg['wi'] + 1e-9:
+                return ('stop-late', f'{res} stop set at {t_set}')
+        return None
+
+
+class RQ2H(Harness):
+    name = 'responsive2'
+    opts = dict(max_points=2000, timers='free', max_timer_fires=200)
+
+    def setup(self):
+        from mpservice.queue import ResponsiveQueue
+        codes = []
+        for f in (ResponsiveQueue._get_put, ResponsiveQueue.get, ResponsiveQueue.put):
+            codes += sched.all_codes(f)
+        return codes
+
+    def configs(self, tier):
+        d = 2 if tier == 'quick' else 3
+        return [dict(wi=1.0, item_first=True, bound=d), dict(wi=1.0, item_first=False, bound=d)]
+
+    def new(self, cfg):
+        return RQ2Exec(cfg)
+
+
+HARNESSES = {'iq': IQH, 'responsive': RQH, 'responsive2': RQ2H}
+PLAN = {'quick': ['iq', 'responsive', 'responsive2'], 'thorough': ['iq', 'responsive', 'responsive2']}
